@@ -85,7 +85,9 @@ def _codec(ctx: Ctx, name: str, src_var_kind: str) -> None:
             e = esc[0]
             mv = unparse(m[0].targets[0])
             txt = [unparse(s) for s in e.body]
-            ok = txt == [f"binary_text += bytes([int({mv}.group('byte'), 16)])", f"current_position += len({mv}.group())", "continue"]
+            emit_forms = (f"binary_text += bytes([int({mv}.group('byte'), 16)])", f"binary_text.extend(bytes([int({mv}.group('byte'), 16)]))", f"binary_text.append(int({mv}.group('byte'), 16))")
+            adv_forms = (f"current_position += len({mv}.group())", f"current_position += {mv}.end() - {mv}.start()", f"current_position += len({mv}.group(0))")
+            ok = len(txt) == 3 and txt[0] in emit_forms and txt[1] in adv_forms and txt[2] == "continue"
         ctx.check(bool(ok), "Table.to_bytes:escape", "[0xNN] is recognised before table entries, emits the byte NN (base 16) and skips the whole escape")
         rem = [s for s in lp.body if isinstance(s, ast.Assign) and unparse(s.targets[0]) == "remainder"]
         ctx.check(len(rem) == 1 and unparse(rem[0].value) == f"{fn.params()[1]}[current_position:]", "Table.to_bytes:remainder", "matching continues from the cursor")
